@@ -211,3 +211,18 @@ Proof.
     + unfold leaf_std. rewrite Ht. now rewrite !orb_true_r.
     + unfold leaf_ok. rewrite Ht. now rewrite !orb_true_r.
 Qed.
+
+(* Since the scanner's fix F41 no leaf is a "liberal" atom (a quote or a bar inside
+   an atom) any more: a well-formed leaf is an atom, a string literal, a quoted
+   symbol or a comment, so [ssn_atom] covers every well-formed leaf that is not piped
+   and is neither a string literal nor a comment, and [ssn_symbol_wf] every well-formed
+   symbol. *)
+Theorem ssn_leaf_wf isvar s t :
+  leaf_ok s = true -> strlit_ok s = false -> comment_ok s = false ->
+  In t (ssn_names isvar s) ->
+  leaf_std t = true /\ leaf_ok t = true.
+Proof.
+  intros Hl Hs Hc H. apply (ssn_symbol_wf isvar s t); [|exact H].
+  unfold leaf_ok, atom_ok_lib in Hl. rewrite Hs, Hc, !orb_false_r in Hl.
+  now apply orb_true_iff in Hl.
+Qed.
